@@ -60,8 +60,15 @@ func (tr TemplatedRegexp) Expand(rule parser.Rule) (*regexp.Regexp, error) {
 	return regexp.Compile(buf.String())
 }
 
+// neverMatches is what MustExpand returns when a pattern can't be expanded for a given rule,
+// which can happen when rule labels or annotations contain regexp metacharacters.
+var neverMatches = regexp.MustCompile(`[^\s\S]`)
+
 func (tr TemplatedRegexp) MustExpand(rule parser.Rule) *regexp.Regexp {
-	re, _ := tr.Expand(rule)
+	re, err := tr.Expand(rule)
+	if err != nil {
+		return neverMatches
+	}
 	return re
 }
 
